@@ -51,6 +51,54 @@ func c05WindowHistories() []c05Hist {
 				}})
 		}
 	}
+	// the API is refused while a transfer runs and while a drop is pending: nothing may start
+	hs = append(hs,
+		c05Hist{name: "window:api:refused-while-transfer-runs", drag: true,
+			run: func(x *c05F, work string, rng *rand.Rand) string {
+				x.f.SetDefaultDownloadPath(work)
+				if e := c05Handshake(x, 'S', "1.1.6", true); e != "" {
+					return e
+				}
+				x.svrOut.Write(c05EncLine("CFG", c05CFG))
+				if !c05WaitBusy(x, 2*time.Second) {
+					return "never entered the transfer state"
+				}
+				from := x.rec.length()
+				if err := x.f.UploadFiles([]string{x.paths.exist[0]}); err == nil {
+					return "WINDOW: UploadFiles during a transfer was accepted"
+				}
+				time.Sleep(500 * time.Millisecond)
+				if sv := x.rec.bytesSince(from, 's'); bytes.Contains(sv, []byte{3}) {
+					return fmt.Sprintf("WINDOW: UploadFiles during a transfer sent ctrl-C into the transfer: %q", sv)
+				}
+				x.svrOut.Write(c05EncLine("fail", "server side failure"))
+				if !c05WaitIdle(x, 5*time.Second) {
+					return "the transfer did not end"
+				}
+				return ""
+			}},
+		c05Hist{name: "window:api:refused-while-drop-pending", drag: true,
+			run: func(x *c05F, work string, rng *rand.Rand) string {
+				from := x.rec.length()
+				hd, e := x.drop(rng)
+				if e != "" {
+					return e
+				}
+				if err := x.f.UploadFiles([]string{x.paths.exist[0]}); err == nil {
+					return "WINDOW: UploadFiles while a dropped list is pending was accepted"
+				}
+				if e := x.uploadRuns(from, x.dragCommand(hd)); e != "" {
+					return e
+				}
+				if e := x.toutMust([]byte("-bash: trz: command not found\r\n$ ")); e != "" {
+					return e
+				}
+				x.bookkeepingEnds()
+				if n := bytes.Count(x.rec.bytesSince(from, 's'), []byte{3}); n != 1 {
+					return fmt.Sprintf("WINDOW: a drop plus a refused API call sent ctrl-C %d times", n)
+				}
+				return ""
+			}})
 	return hs
 }
 
